@@ -290,7 +290,13 @@ func (x *Exec) applySpec(s *State, spec *FuncSpec, evName string, vars map[strin
 		if usesEvents(c.Expr) {
 			continue // statements about the callee's own call events are not visible to callers
 		}
-		s.assume(post.evalBool(c.Expr))
+		g, und := evalClause(post, c.Expr)
+		if und != "" {
+			s.tainted = "contract of " + spec.Name + ", clause " + c.Label + ": " + und
+			x.note("call of " + spec.Name + ": clause " + c.Label + " could not be assumed (" + und + ")")
+			continue
+		}
+		s.assume(g)
 	}
 	for _, m := range spec.Maintains {
 		v := post.eval(mustParse(m.Text))
